@@ -858,21 +858,29 @@ func gnStringKeyCase(p *reg.Pkg, tf *treeFile, sum *Summary, s gnListSite, str s
 	sum.count("key_cases", "string-to-key")
 	sum.count("key_types", s.keyT.String())
 	// ---- C16 oracle: the string ygot printed for a key addresses an entry with that key
+	panicSig := "key/setnode-panic"
+	if strings.EqualFold(strings.TrimLeft(str, "+-"), "nan") {
+		panicSig += "/nan" // a NaN map key is never found again: known finding
+	}
 	if span && !fromTree {
-		sum.finding(Finding{Signature: "key/setnode-panic", What: "SetNode(InitMissingElements) panics on a list key string: " + serr.Error(), Input: in})
+		sum.finding(Finding{Signature: panicSig, What: "SetNode(InitMissingElements) panics on a list key string: " + serr.Error(), Input: in})
 	}
 	if fromTree {
 		sum.OracleRuns++
 		vt, _ := scalarTerm(kv)
 		switch {
 		case span:
-			sum.finding(Finding{Signature: "key/setnode-panic", What: "SetNode panics creating a list entry from a key string ygot printed", Input: in})
+			sum.finding(Finding{Signature: panicSig, What: "SetNode panics creating a list entry from a key string ygot printed", Input: in})
 		case serr != nil:
 			sum.finding(Finding{Signature: "key/string-rejected", What: "the key string printed by KeyValueAsString is rejected when creating the entry: " + serr.Error(), Input: in})
 		default:
 			gt, _ := scalarTerm(got)
 			if gt != vt {
-				sum.finding(Finding{Signature: "key/roundtrip-differs", What: "key value " + vt + " printed as " + strconv.Quote(str) + " creates an entry with key " + gt, Input: in})
+				rsig := "key/roundtrip-differs"
+				if _, rt := resolveType(ke); rt != nil && rt.Kind == yang.Yunion {
+					rsig += "/union-member" // the printed text does not carry the member type: known finding
+				}
+				sum.finding(Finding{Signature: rsig, What: "key value " + vt + " printed as " + strconv.Quote(str) + " creates an entry with key " + gt, Input: in})
 			}
 		}
 	}
